@@ -57,6 +57,10 @@ def gen_blocks(rng, tier):
         else:
             a = rng.randrange(1 << 24)
         data = bytes(rng.randrange(256) for _ in range(min(ln, 64))) + bytes([rng.randrange(256)]) * max(0, ln - 64)
+        if rng.random() < 0.3:
+            # a block of one repeated value (padding, a cleared table, a NOP sled), of any length
+            ln = rng.choice([ln, 2, 3, 4, 5, 8, 16, 256, 4096, 65535])
+            data = bytes([rng.choice([0, 0xFF, 0xEA, rng.randrange(256)])]) * ln
         out.append((a, data))
     return out
 
